@@ -65,7 +65,7 @@ func (c12) Budget(tier string) runner.Budget {
 	if tier == "thorough" {
 		return runner.Budget{Plans: 40000, PlansPerProc: 25, Wall: 14 * time.Minute}
 	}
-	return runner.Budget{Plans: 12000, PlansPerProc: 100, Wall: 45 * time.Second}
+	return runner.Budget{Plans: 18000, PlansPerProc: 100, Wall: 45 * time.Second}
 }
 
 func (c12) Describe() runner.Description {
